@@ -204,6 +204,22 @@ void h_probe_cap(void) {
     V_WITNESS("h_probe_cap end");
 }
 
+/* C07: the cap must leave room for the property's range (k up to 300 distinct observations between Queries):
+ * with 299 observations counted, one more distinct Probe/Train addressed to this station is still recorded. */
+void h_probe_room(void) {
+    common_setup(0);
+    g_class = CL_NONE;
+    V_ASSUME(in.frame[F_TOS] == 0 && (in.frame[F_OP] == opcode_probe || in.frame[F_OP] == opcode_train));
+    V_ASSUME(mac6_eq(in.frame + F_RDST, g_cfgA.mac));
+    for (unsigned i = 0; i < K; i++)
+        if (i < in.st.n) V_ASSUME(!(mac6_eq(in.st.node[i].es, in.frame + F_ESRC) && mac6_eq(in.st.node[i].rs, in.frame + F_RSRC)));
+    ST->see_list_count = 299;
+    parseFrame(RX, &g_cfgA);
+    struct snap sn; snapshot_list(ST, &sn);
+    V_ASSERT(sn.n == in.st.n + 1u && ST->see_list_count == 300, "C07: up to 300 distinct observations between Queries are all recorded (the memory cap does not cut into the property's range)");
+    V_WITNESS("h_probe_room end");
+}
+
 /* ============================================================ Reset class (C05, C07, C09, C19) */
 void h_reset(void) {
     common_setup(0);
